@@ -301,7 +301,12 @@ func (w *aWorld) genPatches(failing bool, create bool) []workload.PatchDesc {
 
 		switch kind {
 		case workload.AddKey, workload.RemoveKey, workload.ReplaceAll:
-			out = append(out, workload.PatchDesc{Kind: kind, IDs: pickIDs(workload.KeyIDs()), Mark: mark})
+			ids := pickIDs(workload.KeyIDs())
+			if kind == workload.ReplaceAll && T.Draw(4, "patch.replace.empty") == 0 {
+				ids = nil // replace with the empty document {}
+			}
+
+			out = append(out, workload.PatchDesc{Kind: kind, IDs: ids, Mark: mark})
 		case workload.AddSvc, workload.RemoveSvc:
 			out = append(out, workload.PatchDesc{Kind: kind, IDs: pickIDs(workload.SvcIDs()), Mark: mark})
 		case workload.AddAKA, workload.RemoveAKA:
